@@ -2,34 +2,76 @@
 import re
 
 from .. import lib, mir
-from ..mir import render
+from .. import lib_sec as S
+from ..mir import render, strip_generics
 
 EXPLANATION = ("certificate::parse = parse_unverified then verify()? (verification dominates every Ok); P2pCertificate is constructed only in "
                "parse_unverified, which only parse calls; verify returns Ok only if validity().is_valid(), the self-signature over "
                "tbs_certificate verifies under the certificate's own key, and the extension's host key verifies P2P_SIGNING_PREFIX ++ "
-               "subject public key info against the extension's signature; peer_id() derives from that same extension key; "
+               "subject public key info against the extension's signature; verify_signature returns Ok only on the success edge of "
+               "ring's UnparsedPublicKey::verify over the unchanged (message, signature) with the key public_key(scheme) yields, and "
+               "public_key yields a key only for the certificate's own signature scheme; peer_id() derives from that same extension key; "
                "parse_unverified rejects a duplicated libp2p extension, unknown critical extensions and a missing extension; "
-               "make_libp2p_extension signs the same prefix ++ certificate public key; SHA-1 / unknown schemes map to Err.")
+               "make_libp2p_extension signs the same prefix ++ certificate public key; SHA-1 / unknown schemes map to Err.  Success tests "
+               "are matched by their Ok/Some edges (`?`, match, if-let alike), values by origin, fields of the private structs by type.")
 ASSUMPTIONS = ["DER parsing by x509-parser/yasna, signature primitives in ring/libp2p_identity", "byte-mutation behaviour is not executed"]
 T = "libp2p_tls"
 
 
 def oks(b):
-    return [mir.Site(b, x[1], x[2]) for x in b.defs[0] if x[0] == "stmt" and render(b.rvalue_expr(x[3])).startswith("std::result::Result::Ok{")]
+    return S.ok_sites(b)
+
+
+def field_of_type(prog, adt_pat, ty_pat, default):
+    a = prog.adt(T, adt_pat)
+    hits = [f["n"] for f in a["variants"][0]["fields"] if re.search(ty_pat, f.get("ty") or "")]
+    return hits[0] if len(hits) == 1 else default
+
+
+def callee_is(e, pat):
+    return e[0] == "call" and re.search(pat, strip_generics(e[1])) is not None
+
+
+def ok_of_call(e, pat):
+    """e is the success payload of a call matching pat (through view conversions)"""
+    e = S.peel(S.norm(e))
+    return e[0] == "call" and e[1] == "ok" and callee_is(e[2][0], pat)
+
+
+def msg_parts(body, msg_local):
+    """ordered `msg.extend(X)` / `extend_from_slice` / `push` arguments for the buffer local"""
+    out = []
+    for s in body.call_sites(r"Extend>::extend$|Vec::extend_from_slice$|Vec::extend$"):
+        e = body.site_expr(s)
+        if S.is_local(S.peel(e[2][0]), msg_local):
+            out.append((s, e[2][1]))
+    return out
 
 
 def check(ctx):
     prog = ctx.prog
+    EXT = field_of_type(prog, r"certificate::P2pCertificate$", r"P2pExtension", "extension")
+    KEY = field_of_type(prog, r"certificate::P2pExtension$", r"PublicKey$", "public_key")
+    SIG = field_of_type(prog, r"certificate::P2pExtension$", r"Vec<u8>", "signature")
+    CERT = field_of_type(prog, r"certificate::P2pCertificate$", r"X509Certificate", "certificate")
+
+    def ext_part(e, part):
+        e = S.peel(e)
+        return e[0] == "field" and e[2] == part and S.self_field(e[1], EXT)
     p = ctx.body(T, r"^libp2p_tls::certificate::parse$")
     pu = p.call_sites(r"certificate::parse_unverified$")
     vf = p.call_sites(r"certificate::P2pCertificate::verify$")
     ctx.floor("parse", "parse_unverified / verify calls", pu + vf, 2)
-    for s in oks(p):
-        ctx.guarded("parse", "Ok only after verify() succeeded", s, lambda c, r, l: l == "Continue" and "P2pCertificate::verify(" in r, "certificate.verify()? passed")
-        r = render(p.site_expr(s))
-        ctx.ob("parse", "returns the verified certificate", "parse_unverified(" in r and "@Continue.0" in r, s.loc(), r[:200])
+    verified = set()
     for s in vf:
-        ctx.ob("parse", "verify is called on the parsed certificate", "parse_unverified(" in render(p.site_expr(s)), s.loc(), render(p.site_expr(s))[:200])
+        verified |= S.call_outcome_edges(p, s)[0]
+    for s in oks(p):
+        S.guarded(ctx, "parse", "Ok only after verify() succeeded", s, verified, "certificate.verify()? passed")
+        pay = dict(p.site_expr(s)[4]).get("0", ("unknown", ""))
+        ctx.ob("parse", "returns the verified certificate", ok_of_call(S.expand(p, pay), r"certificate::parse_unverified$"), s.loc(), S.nrender(pay)[:200])
+    for s in vf:
+        a0 = p.site_expr(s)[2][0]
+        ctx.ob("parse", "verify is called on the parsed certificate", ok_of_call(S.expand(p, a0), r"certificate::parse_unverified$"), s.loc(), S.nrender(p.site_expr(s))[:200])
     who = {b.npath for b in prog.bodies(T) if b.agg_sites(r"certificate::P2pCertificate$")}
     ctx.ob("who", "P2pCertificate constructed only in parse_unverified", who == {"libp2p_tls::certificate::parse_unverified"}, msg=str(sorted(who)))
     callers = {s.body.npath for s in prog.callers(T, r"certificate::parse_unverified$")}
@@ -40,84 +82,135 @@ def check(ctx):
     v = ctx.body(T, r"certificate::P2pCertificate::verify$")
     vo = oks(v)
     ctx.floor("verify", "Ok return of verify", vo, 1)
-    for s in vo:
-        ctx.guarded("verify", "Ok requires a currently valid certificate", s, lambda c, r, l: l == "true" and r.startswith("x509_parser::certificate::Validity::is_valid(x509_parser::certificate::TbsCertificate::validity("), "validity().is_valid()")
-        ctx.guarded("verify", "Ok requires a supported signature scheme", s, lambda c, r, l: l == "Continue" and "P2pCertificate::signature_scheme(self)" in r and "verify_signature" not in r, "signature_scheme()?")
-        ctx.guarded("verify", "Ok requires a valid self-signature", s, lambda c, r, l: l == "Continue" and "P2pCertificate::verify_signature(self" in r, "verify_signature(..)?")
-        ctx.guarded("verify", "Ok requires proof of host-key possession", s, lambda c, r, l: l == "true" and r.startswith("libp2p_identity::PublicKey::verify(self.extension.public_key, "), "user_owns_sk")
+    valid_now, _ = S.truth_edges(v, lambda c: callee_is(c, r"certificate::Validity::is_valid$") and S.has_call(c, r"TbsCertificate::validity$"))
+    scheme_ok, _ = S.outcome_edges(v, lambda x: callee_is(x, r"P2pCertificate::signature_scheme$"))
     vs = v.call_sites(r"certificate::P2pCertificate::verify_signature$")
+    self_signed = set()
     for s in vs:
-        e = v.site_expr(s)
-        a = [render(x) for x in e[2]]
-        ctx.ob("verify", "self-signature is over tbs_certificate", "tbs_certificate" in a[2] and "signature_value" in a[3], s.loc(), (a[2] + " | " + a[3])[:260])
+        self_signed |= S.call_outcome_edges(v, s)[0]
     hv = v.call_sites(r"libp2p_identity::PublicKey::verify$")
     ctx.floor("verify", "host key verify", hv, 1)
-    ex = [s for s in v.call_sites(r"Extend>::extend$") if render(v.site_expr(s)[2][0]) == "msg"]
+    owns, _ = S.truth_edges(v, lambda c: callee_is(c, r"libp2p_identity::PublicKey::verify$") and ext_part(c[2][0], KEY))
+    for s in vo:
+        S.guarded(ctx, "verify", "Ok requires a currently valid certificate", s, valid_now, "validity().is_valid()")
+        S.guarded(ctx, "verify", "Ok requires a supported signature scheme", s, scheme_ok, "signature_scheme()?")
+        S.guarded(ctx, "verify", "Ok requires a valid self-signature", s, self_signed, "verify_signature(..)?")
+        S.guarded(ctx, "verify", "Ok requires proof of host-key possession", s, owns, "user_owns_sk")
+    for s in vs:
+        a = v.site_expr(s)[2]
+        ok = (len(a) == 4 and S.is_arg(S.peel(a[0]), 1) and ok_of_call(a[1], r"P2pCertificate::signature_scheme$") and S.has_field(a[2], "tbs_certificate") and S.has_field(a[3], "signature_value")
+              and S.has(a[2], lambda x: S.self_field(x, CERT)) and S.has(a[3], lambda x: S.self_field(x, CERT)))
+        ctx.ob("verify", "self-signature is over tbs_certificate", ok, s.loc(), (S.nrender(a[2]) + " | " + S.nrender(a[3]))[:260] if len(a) == 4 else "")
     for s in hv:
-        e = v.site_expr(s)
-        a = [render(x) for x in e[2]]
-        ctx.ob("verify", "verified with the extension's key / signature", a[0] == "self.extension.public_key" and a[2].endswith("(self.extension.signature)"), s.loc(), str(a)[:260])
-        ctx.ob("verify", "verified message is `msg`", a[1].endswith("(msg)"), s.loc(), a[1])
-        args = [render(v.site_expr(x)[2][1]) for x in ex]
-        ok = len(args) == 2 and args[0] == "const:libp2p_tls::certificate::P2P_SIGNING_PREFIX" and "TbsCertificate::public_key(" in args[1] and args[1].endswith(".raw")
-        ctx.ob("verify", "msg = P2P_SIGNING_PREFIX ++ subject public key info", ok, s.loc(), str(args)[:260])
+        a = v.site_expr(s)[2]
+        ctx.ob("verify", "verified with the extension's key / signature", ext_part(a[0], KEY) and ext_part(a[2], SIG), s.loc(), str([render(x) for x in a])[:260])
+        m = S.peel(a[1])
+        ctx.ob("verify", "verified message is `msg`", m[0] == "local", s.loc(), render(a[1]))
+        if m[0] != "local":
+            continue
+        ex = msg_parts(v, m[1])
+        args = [x for _, x in ex]
+        ok = (len(args) == 2 and S.peel(args[0])[0] == "namedconst" and S.peel(args[0])[1].endswith("certificate::P2P_SIGNING_PREFIX")
+              and S.has_call(args[1], r"TbsCertificate::public_key$") and S.peel(args[1])[0] == "field" and S.peel(args[1])[2] == "raw" and S.has(args[1], lambda x: S.self_field(x, CERT)))
+        ctx.ob("verify", "msg = P2P_SIGNING_PREFIX ++ subject public key info", ok, s.loc(), str([render(x) for x in args])[:260])
         if len(ex) == 2:
-            lib.precedes(ctx, "verify", "prefix precedes key in msg", v, [ex[0].bb], [ex[1].bb], "extend(PREFIX) before extend(subject_pki)")
-            lib.precedes(ctx, "verify", "msg complete before verification", v, [ex[1].bb], [s.bb], "msg built before verify")
-    inits = [render(v.init_expr(k)) for k, n in v.names.items() if n == "msg"]
-    ctx.ob("verify", "msg starts empty", inits == ["std::vec::Vec::new()"], msg=str(inits))
+            lib.precedes(ctx, "verify", "prefix precedes key in msg", v, [ex[0][0].bb], [ex[1][0].bb], "extend(PREFIX) before extend(subject_pki)")
+            lib.precedes(ctx, "verify", "msg complete before verification", v, [ex[1][0].bb], [s.bb], "msg built before verify")
+        inits = [render(v.init_expr(m[1]))]
+        ctx.ob("verify", "msg starts empty", inits == ["std::vec::Vec::new()"] and len(v.defs.get(m[1], [])) == 1, msg=str(inits))
     pre = prog.const(T, r"certificate::P2P_SIGNING_PREFIX$")
     ctx.ob("verify", "prefix constant is a 21-byte array", pre["ty"] == "[u8; 21]", msg=pre["ty"])
     pid = ctx.body(T, r"certificate::P2pCertificate::peer_id$")
     tp = pid.call_sites(r"libp2p_identity::PublicKey::to_peer_id$")
-    ctx.ob("verify", "peer_id() uses the verified extension key", len(tp) == 1 and render(pid.site_expr(tp[0])) == "libp2p_identity::PublicKey::to_peer_id(self.extension.public_key)", "%s:%d" % (pid.file, pid.line), str([render(pid.site_expr(s)) for s in tp]))
+    ctx.ob("verify", "peer_id() uses the verified extension key", len(tp) == 1 and ext_part(pid.site_expr(tp[0])[2][0], KEY), "%s:%d" % (pid.file, pid.line), str([render(pid.site_expr(s)) for s in tp]))
+    # ---- verify_signature: Ok only if ring verified (message, signature) under the key of this certificate for this scheme
+    vsb = ctx.body(T, r"certificate::P2pCertificate::verify_signature$")
+    rv = vsb.call_sites(r"ring::signature::UnparsedPublicKey::verify$|signature::UnparsedPublicKey::<.*>::verify$")
+    ctx.floor("selfsig", "ring UnparsedPublicKey::verify call", rv, 1)
+    ring_ok = set()
+    for s in rv:
+        ring_ok |= S.call_outcome_edges(vsb, s)[0]
+    vso = oks(vsb)
+    ctx.floor("selfsig", "Ok return of verify_signature", vso, 1)
+    for s in vso:
+        S.guarded(ctx, "selfsig", "Ok only on the success edge of the signature verification", s, ring_ok, "pk.verify(message, signature) is Ok")
+    for s in rv:
+        a = vsb.site_expr(s)[2]
+        ctx.ob("selfsig", "verification is over the given (message, signature), unchanged", len(a) == 3 and S.is_arg(S.peel(a[1]), 3) and S.is_arg(S.peel(a[2]), 4), s.loc(), str([render(x) for x in a[1:]])[:160])
+        k = S.peel(S.norm(S.expand(vsb, a[0])))
+        ok = (k[0] == "call" and k[1] == "ok" and callee_is(k[2][0], r"P2pCertificate::public_key$") and S.is_arg(S.peel(k[2][0][2][0]), 1) and S.is_arg(S.peel(k[2][0][2][1]), 2))
+        ctx.ob("selfsig", "verification key = self.public_key(signature_scheme)?", ok, s.loc(), render(k)[:200])
+    pk = ctx.body(T, r"certificate::P2pCertificate::public_key$")
+    same_scheme = S.rel_edges(pk, lambda e: S.is_arg(S.peel(e), 2), lambda e: ok_of_call(e, r"P2pCertificate::signature_scheme$"))["eq"]
+    pko = oks(pk)
+    ctx.floor("selfsig", "Ok return of public_key", pko, 1)
+    for s in pko:
+        S.guarded(ctx, "selfsig", "public_key yields a key only for the certificate's own signature scheme", s, same_scheme, "signature_scheme == self.signature_scheme()?")
+        pay = dict(pk.site_expr(s)[4]).get("0", ("unknown", ""))
+        ctx.ob("selfsig", "the key is the certificate's subject public key", S.has_field(pay, "subject_public_key") and S.has(pay, lambda x: S.self_field(x, CERT)), s.loc(), render(pay)[:200])
     # sibling: make_libp2p_extension signs the same message shape
     mk = ctx.body(T, r"certificate::make_libp2p_extension$")
-    ex2 = [s for s in mk.call_sites(r"Extend>::extend$") if render(mk.site_expr(s)[2][0]) == "msg"]
-    args = [render(mk.site_expr(x)[2][1]) for x in ex2]
-    ok = len(args) == 2 and args[0] == "const:libp2p_tls::certificate::P2P_SIGNING_PREFIX" and "public_key_der(" in args[1]
-    ctx.ob("sign", "signed message = P2P_SIGNING_PREFIX ++ certificate public key DER", ok, "%s:%d" % (mk.file, mk.line), str(args)[:200])
     sg = mk.call_sites(r"libp2p_identity::Keypair::sign$")
-    ctx.ob("sign", "signed with the identity key over msg", len(sg) == 1 and render(mk.site_expr(sg[0])[2][1]).endswith("(msg)") and render(mk.site_expr(sg[0])[2][0]) == "identity_keypair", sg[0].loc() if sg else "", str([render(mk.site_expr(s))[:120] for s in sg]))
+    ctx.ob("sign", "floor:Keypair::sign", len(sg) == 1, nontrivial=False, msg=str(len(sg)))
+    for s in sg:
+        a = mk.site_expr(s)[2]
+        m = S.peel(a[1])
+        idk = [i for i in range(1, mk.argc + 1) if re.search(r"Keypair", mk.locals[i])]
+        ctx.ob("sign", "signed with the identity key over msg", m[0] == "local" and len(idk) == 1 and S.is_arg(S.peel(a[0]), idk[0]), s.loc(), render(mk.site_expr(s))[:160])
+        args = [x for _, x in msg_parts(mk, m[1])] if m[0] == "local" else []
+        ok = (len(args) == 2 and S.peel(args[0])[0] == "namedconst" and S.peel(args[0])[1].endswith("certificate::P2P_SIGNING_PREFIX") and S.has_call(args[1], r"public_key_der$"))
+        ctx.ob("sign", "signed message = P2P_SIGNING_PREFIX ++ certificate public key DER", ok, "%s:%d" % (mk.file, mk.line), str([render(x) for x in args])[:200])
     # ---- parse_unverified
     u = ctx.body(T, r"certificate::parse_unverified$")
-    for s in oks(u):
-        ctx.guarded("extensions", "Ok requires the libp2p extension", s, lambda c, r, l: l == "Continue" and "ok_or(libp2p_extension, webpki::Error::BadDer{})" in r, "libp2p_extension.ok_or(BadDer)?")
-        r = render(u.site_expr(s))
-        ctx.ob("extensions", "certificate carries the parsed extension", "extension: <std::result::Result as std::ops::Try>::branch(std::option::Option::ok_or(libp2p_extension" in r, s.loc(), r[:240])
-    # every extension is examined: Ok is reachable only after the extension iterator is exhausted (no early loop exit)
+    uo = oks(u)
+    ctx.floor("extensions", "Ok return of parse_unverified", uo, 1)
+    slot = set()            # the Option local that collects the libp2p extension: its payload is what Ok(P2pCertificate{extension: ..}) carries
+    for s in uo:
+        cert = S.expand(u, dict(u.site_expr(s)[4]).get("0", ("unknown", "")))
+        x = S.norm(dict(cert[4]).get(EXT, ("unknown", ""))) if cert[0] == "agg" else ("unknown", "")
+        good = x[0] == "call" and x[1] == "ok" and x[2][0][0] == "local"
+        ctx.ob("extensions", "certificate carries the parsed extension", good, s.loc(), render(x)[:240])
+        if good:
+            slot.add(x[2][0][1])
+    sl = next(iter(slot)) if len(slot) == 1 else -1
+    present, absent = S.outcome_edges(u, lambda x: S.is_local(x, sl))
     nx = [s for s in u.call_sites(r"Iterator>::next$")]
     ctx.floor("extensions", "extension loop", nx, 1)
-    for s in oks(u):
-        ctx.guarded("extensions", "Ok only after all extensions were examined", s,
-                    lambda c, r, l: l == "None" and r.startswith("discr(") and "Iterator>::next(" in r, "extension iterator returned None")
-    dup = [s for s in u.agg_sites(r"webpki::Error$|webpki::error::Error$", "BadDer") if s.stmt["p"]["l"] == 0 or True]
-    st = [mir.Site(u, d[1], d[2]) for k, n in u.names.items() if n == "libp2p_extension" for d in u.defs.get(k, []) if d[0] == "stmt" and "Some{" in render(u.rvalue_expr(d[3]))]
+    _, exhausted = S.outcome_edges(u, lambda x: callee_is(x, r"Iterator>::next$"))
+    for s in uo:
+        S.guarded(ctx, "extensions", "Ok requires the libp2p extension", s, present, "libp2p_extension is Some (missing => BadDer)")
+        S.guarded(ctx, "extensions", "Ok only after all extensions were examined", s, exhausted, "extension iterator returned None")
+    st = [site for site, e in S.def_exprs(u, sl) if e[0] == "agg" and e[3] == "Some"]
     ctx.floor("extensions", "libp2p_extension = Some(..)", st, 1)
+    oid_eq = S.rel_edges(u, lambda e: S.has_field(e, "oid"), lambda e: any(x[0] == "namedconst" and x[1].endswith("P2P_EXT_OID") for x in mir.walk(e)))["eq"]
     for s in st:
-        ctx.guarded("extensions", "extension stored only when none was stored before", s, lambda c, r, l: l == "false" and r == "std::option::Option::is_some(libp2p_extension)", "!libp2p_extension.is_some() (duplicate => BadDer)",
-                    correlate=r"^std::cmp::impls::eq\(.*@Some\.0\.oid, .*P2P_EXT_OID")
-        ctx.guarded("extensions", "extension stored only for the libp2p OID", s, lambda c, r, l: l == "true" and "P2P_EXT_OID" in r and "eq(" in r, "oid == p2p_ext_oid")
-        r = render(u.site_expr(s))
-        ctx.ob("extensions", "stored key is the decoded host key, signature from the same SignedKey", "try_decode_protobuf(" in r or "@Continue.0" in r, s.loc(), r[:200])
-    dupe = lib.switch_edges_on(u, r"^std::option::Option::is_some\(libp2p_extension\)$", {"true"})
+        ok = bool(absent) and u.must_pass_edges(s.bb, absent, 0, r"^std::cmp::impls::eq\(.*\.oid, .*P2P_EXT_OID|P2P_EXT_OID.*\.oid\)$")
+        ctx.ob("extensions", "extension stored only when none was stored before", ok, s.loc(), ("guard present on all paths: " if ok else "a path reaches this site without the guard: ") + "!libp2p_extension.is_some() (duplicate => BadDer)")
+        S.guarded(ctx, "extensions", "extension stored only for the libp2p OID", s, oid_eq, "oid == p2p_ext_oid")
+        e = u.site_expr(s)
+        ext = S.expand(u, dict(e[4]).get("0", ("unknown", "")))
+        kk = dict(ext[4]).get(KEY) if ext[0] == "agg" else None
+        ss = dict(ext[4]).get(SIG) if ext[0] == "agg" else None
+        ok = kk is not None and ss is not None and ok_of_call(kk, r"PublicKey::try_decode_protobuf$") and S.has_call(kk, r"yasna::decode_der$") and S.has_call(ss, r"yasna::decode_der$")
+        ctx.ob("extensions", "stored key is the decoded host key, signature from the same SignedKey", ok, s.loc(), S.nrender(e)[:200])
+    reach_next = lambda bi: any(n.bb in u.reachable([bi]) for n in nx)
+    dupe = [(b, t) for (b, t) in present if reach_next(b)]
+    ctx.ob("extensions", "floor:duplicate test inside the extension loop", len(dupe) >= 1, nontrivial=False, msg=str(sorted(dupe)))
     for _, t in dupe:
         rr = u.reachable([t])
-        errs = [mir.Site(u, d[1], d[2]) for d in u.defs[0] if d[0] == "stmt" and d[1] in rr and "Err{0: webpki" in render(u.rvalue_expr(d[3]))]
-        ctx.ob("extensions", "duplicate libp2p extension => Err", len(errs) >= 1 and not (set(x.bb for x in oks(u)) & u.reachable([t], blocked_nodes=[e.bb for e in errs])), msg="second occurrence of the extension is rejected")
-    crit = lib.switch_edges_on(u, r"@Some\.0\.critical$", {"true"})
+        errs = [x for x in S.ret_sites(u, S.is_err_agg) if x.bb in rr]
+        ctx.ob("extensions", "duplicate libp2p extension => Err", len(errs) >= 1 and not (set(x.bb for x in uo) & u.reachable([t], blocked_nodes=[e.bb for e in errs])), msg="second occurrence of the extension is rejected")
+    crit, _ = S.truth_edges(u, lambda c: c[0] == "field" and c[2] == "critical")
     ctx.ob("extensions", "floor:critical edge", len(crit) == 1, nontrivial=False, msg=str(crit))
     for _, t in crit:
         rr = u.reachable([t])
-        ok = any("UnsupportedCriticalExtension" in render(u.rvalue_expr(d[3])) for d in u.defs[0] if d[0] == "stmt" and d[1] in rr) and not (set(x.bb for x in oks(u)) & rr)
+        ok = any("UnsupportedCriticalExtension" in render(u.site_expr(x)) for x in S.ret_sites(u, S.is_err_agg) if x.bb in rr) and not (set(x.bb for x in uo) & rr)
         ctx.ob("extensions", "unknown critical extension => Err", ok, msg="critical unknown extension aborts parsing")
     # ---- schemes
     for fn in ("public_key", "signature_scheme"):
         b = ctx.body(T, r"certificate::P2pCertificate::%s$" % fn)
-        txt = " ".join(render(b.site_expr(mir.Site(b, d[1], d[2]))) for d in b.defs[0] if d[0] == "stmt")
         ok_variants = set(re.findall(r"SignatureScheme::(\w+)\{\}", " ".join(render(b.site_expr(s)) for s in oks(b))))
         ctx.ob("schemes", "%s never accepts SHA-1 schemes" % fn, not any("SHA1" in x for x in ok_variants), "%s:%d" % (b.file, b.line), "schemes returned in Ok: %s" % sorted(ok_variants))
-    pk = ctx.body(T, r"certificate::P2pCertificate::public_key$")
     legacy = lib.arm_entry(pk, r"^discr\(", "ECDSA_SHA1_Legacy") + lib.arm_entry(pk, r"^discr\(", "RSA_PKCS1_SHA1")
     for _, t in legacy:
         rr = pk.reachable([t])
